@@ -21,8 +21,20 @@ package main
 //@   ensures[sampled-out-nothing] sampledOut() ==> httpPubCalls == old(httpPubCalls) && result == nil
 //@   ensures[all-destinations] !sampledOut() && result == nil && ph.mode == ModeAll ==> httpPubCalls == old(httpPubCalls) + len(ph.addresses)
 //@   ensures[one-destination] !sampledOut() && ph.mode != ModeAll ==> httpPubCalls == old(httpPubCalls) + 1
-//@   modifies ph.counter, lastNow, lastRand, httpPubCalls, httpPubFailures, httpPubLastAddr
+// r3d: WHICH destinations, and WHAT they get. Every attempt hands over the message body itself (same bytes: unmodified),
+// through this handler's publisher. Multi mode: a nil result means EVERY configured address got it; round-robin: the one
+// address the (post-increment) counter selects; host-pool: the host the pool handed out, and the pool is told the outcome.
+//@   ensures[body-unmodified] httpPubCalls > old(httpPubCalls) ==> r3dHttpLastBody == m.Body && r3dHttpLastPub == ph.Publisher
+//@   ensures[every-address-got-it] !sampledOut() && result == nil && ph.mode == ModeAll ==> (forall i int :: {ph.addresses[i]} 0 <= i && i < len(ph.addresses) ==> setin(r3dHttpEvs, r3dHttpEv(ph.addresses[i], base(m.Body), off(m.Body), len(m.Body))))
+//@   ensures[round-robin-next-address] !sampledOut() && ph.mode == ModeRoundRobin ==> ph.counter == fmod(old(ph.counter) + 1, 18446744073709551616) && httpPubLastAddr == ph.addresses[fmod(ph.counter, len(ph.addresses))]
+//@   ensures[hostpool-chosen-host] !sampledOut() && ph.mode == ModeHostPool ==> r3dHPGets == old(r3dHPGets) + 1 && httpPubLastAddr == r3dHostOf(r3dHPLastResp)
+//@   ensures[hostpool-told-the-outcome] !sampledOut() && ph.mode == ModeHostPool ==> r3dHPMarks == old(r3dHPMarks) + 1 && r3dHPMarked == r3dHPLastResp && r3dHPMarkErr == result
+//@   ensures[error-is-the-publish-error] result != nil ==> httpPubFailures == old(httpPubFailures) + 1
+//@   ensures[message-untouched] m.Body == old(m.Body)
+//@   modifies ph.counter, lastNow, lastRand, httpPubCalls, r3dHPGets, r3dHPMarks
 //@   loop 0
+//@     invariant[every-address-so-far] forall i int :: {ph.addresses[i]} 0 <= i && i <= rangeindex ==> setin(r3dHttpEvs, r3dHttpEv(ph.addresses[i], base(m.Body), off(m.Body), len(m.Body)))
+//@     invariant[body-unmodified] httpPubCalls > old(httpPubCalls) ==> r3dHttpLastBody == m.Body && r3dHttpLastPub == ph.Publisher
 //@     invariant[range] rangeindex < len(ph.addresses)
 //@     invariant[count] httpPubCalls == old(httpPubCalls) + rangeindex + 1
 //@     invariant[no-failure-so-far] httpPubFailures == old(httpPubFailures)
@@ -37,6 +49,8 @@ package main
 //@   ensures[at-most-one-request] httpDoCalls <= old(httpDoCalls) + 1
 //@   ensures[the-response] result1 == nil ==> result0 == lastHTTPResp && result0.Body != nil
 //@   ensures[error-means-not-delivered] result1 != nil ==> httpDoCalls == old(httpDoCalls) || httpDoFailed
+// r3d: the request that goes out is a POST to the endpoint whose body reader is the buffer given
+//@   ensures[posts-the-buffer-to-the-endpoint] httpDoCalls > old(httpDoCalls) ==> r3dDoReq != nil && r3dReqMethod(r3dDoReq) == "POST" && r3dReqURL(r3dDoReq) == endpoint && dyntype(r3dReqBody(r3dDoReq)) == typetag("*bytes.Buffer") && unbox(r3dReqBody(r3dDoReq), "*bytes.Buffer") == body
 //@   modifies httpDoCalls, httpDoFailed, lastHTTPResp
 //@   loop 0
 //@     invariant httpDoCalls == old(httpDoCalls)
@@ -49,6 +63,7 @@ package main
 //@   ensures[at-most-one-request] httpDoCalls <= old(httpDoCalls) + 1
 //@   ensures[the-response] result1 == nil ==> result0 == lastHTTPResp && result0.Body != nil
 //@   ensures[error-means-not-delivered] result1 != nil ==> httpDoCalls == old(httpDoCalls) || httpDoFailed
+//@   ensures[gets-the-endpoint] httpDoCalls > old(httpDoCalls) ==> r3dDoReq != nil && r3dReqMethod(r3dDoReq) == "GET" && r3dReqURL(r3dDoReq) == endpoint
 //@   modifies httpDoCalls, httpDoFailed, lastHTTPResp
 //@   loop 0
 //@     invariant httpDoCalls == old(httpDoCalls)
@@ -69,6 +84,8 @@ package main
 //@   requires[client-initialised] httpclient != nil && contentType != nil
 //@   ensures[nil-iff-2xx] result == nil <==> (httpDoCalls == old(httpDoCalls) + 1 && !httpDoFailed && lastHTTPResp != nil && 200 <= lastHTTPResp.StatusCode && lastHTTPResp.StatusCode < 300)
 //@   ensures[at-most-one-request] httpDoCalls <= old(httpDoCalls) + 1
+// r3d: byte-exact: the body of the POST is a buffer over exactly the bytes of the message (same backing array, offset, length), sent to addr
+//@   ensures[posts-the-message-unmodified] httpDoCalls > old(httpDoCalls) ==> r3dReqMethod(r3dDoReq) == "POST" && r3dReqURL(r3dDoReq) == addr && dyntype(r3dReqBody(r3dDoReq)) == typetag("*bytes.Buffer") && r3dBufBytes(unbox(r3dReqBody(r3dDoReq), "*bytes.Buffer")) == msg
 //@   modifies httpDoCalls, httpDoFailed, lastHTTPResp
 
 //@ func (p *GetPublisher) Publish(addr string, msg []byte) error
